@@ -26,6 +26,31 @@ theorem snapshot_replay {α} (r0 : RS α) (pre mid post : List (Option α)) :
     ∃ old, s.delivered = old ++ emit rq post ∧ ∀ e ∈ old, e.upd = none ∧ e.ver = rq.2 :=
   Resgate.Snap.snapshot_replay r0 pre mid post
 
+/-- Any number of clients sharing one cached resource: whatever the points of the resource's stream
+    `os` at which each of them was added (`c.1`) and read its snapshot (`c.2`), every one of them
+    ends with the value and version the resource ends with — hence they all agree. -/
+theorem all_sharers_converge {α} (r0 : RS α) (os : List (Option α)) (cuts : List (Nat × Nat)) :
+    ∀ c ∈ cuts, c.1 ≤ c.2 → c.2 ≤ os.length →
+      let pre := os.take c.1
+      let mid := (os.drop c.1).take (c.2 - c.1)
+      let post := os.drop c.2
+      let rp := r0.run pre
+      let rq := rp.run mid
+      let s := Sub.runEvs ⟨rq.1, rq.2, []⟩ (emit rp (mid ++ post))
+      s.val = (r0.run os).1 ∧ s.ver = (r0.run os).2 := by
+  intro c _ h12 _
+  have hsplit : os = os.take c.1 ++ ((os.drop c.1).take (c.2 - c.1) ++ os.drop c.2) := by
+    have h2 : os.drop c.2 = (os.drop c.1).drop (c.2 - c.1) := by
+      rw [List.drop_drop]; congr 1; omega
+    rw [h2, List.take_append_drop, List.take_append_drop]
+  have hrun : ((r0.run (os.take c.1)).run ((os.drop c.1).take (c.2 - c.1))).run (os.drop c.2)
+      = r0.run os := by
+    conv => rhs; rw [hsplit]
+    simp [RS.run, List.foldl_append]
+  have := Resgate.Snap.snapshot_replay r0 (os.take c.1) ((os.drop c.1).take (c.2 - c.1)) (os.drop c.2)
+  simp only [hrun] at this
+  exact ⟨this.1, this.2.1⟩
+
 /-- A subscriber that holds the resource's state follows every later stream exactly. -/
 theorem insync {α} (os : List (Option α)) (r : RS α) (d : List (Ev α)) :
     (Sub.runEvs ⟨r.1, r.2, d⟩ (emit r os)).val = (r.run os).1 ∧
